@@ -40,6 +40,9 @@ def e_Call(self: Engine, node: ast.Call, st: State):
             n = len(node.args)
             args = argvals[:n]
             kwargs = {k.arg: v for k, v in zip(node.keywords, argvals[n:])}
+            # which arguments are plain local names (needed when a contract says the callee mutates that argument)
+            self._arg_locals = ([a.id if isinstance(a, ast.Name) else None for a in node.args],
+                                {k.arg: (k.value.id if isinstance(k.value, ast.Name) else None) for k in node.keywords})
             return self.call_value(s2, fv, args, kwargs, node)
         return bind(self.eval_many(list(node.args) + [k.value for k in node.keywords], s), with_args)
 
@@ -77,7 +80,7 @@ def call_value(self: Engine, st, fv, args, kwargs, node=None):
             return recv.vc_call(self, st, fv.name, args, kwargs)
         if isinstance(recv, ObjRef):
             return self.call_method(st, recv, fv.name, args, kwargs)
-        if isinstance(recv, FuncVal) and recv.kind == "class":
+        if isinstance(recv, FuncVal) and recv.kind in ("class", "exc"):
             return self.call_classmethod(st, recv, fv.name, args, kwargs)
         if isinstance(recv, (Val, ListVal, TupleVal, GenVal)):
             return self.value_method(st, recv, fv.name, args, kwargs, fv.lv)
@@ -328,6 +331,15 @@ def contract_args(self, contract: Contract, key, recv, args, kwargs, st):
     return out
 
 
+def _param_order(self, contract: Contract):
+    names = list(contract.params.keys())
+    modname = contract.key.split(":")[0]
+    if ":" in contract.key and self.src.has_module(modname) and self.src.has_function(contract.key):
+        node = self.src.function(contract.key).node
+        return [x.arg for x in node.args.posonlyargs + node.args.args if x.arg not in ("self", "cls")] + [x.arg for x in node.args.kwonlyargs]
+    return names
+
+
 def frame_cells(self, st, recv, contract: Contract):
     cells = []
     for path in contract.frame:
@@ -342,7 +354,19 @@ def frame_cells(self, st, recv, contract: Contract):
 
 def apply_contract(self, st, contract: Contract, recv, args, kwargs):
     """Modular call: assert requires, havoc the frame, assume one case's ensures."""
+    arg_locals = getattr(self, "_arg_locals", ([], {}))
+    self._arg_locals = ([], {})
     bound = self.contract_args(contract, contract.key, recv, args, kwargs, st)
+    mutable = list(getattr(contract, "mutable_params", ()))
+    local_of = {}
+    if mutable:
+        order = self._param_order(contract)
+        for i, nm in enumerate(arg_locals[0]):
+            if i < len(order) and nm:
+                local_of[order[i]] = nm
+        for pn, nm in arg_locals[1].items():
+            if nm:
+                local_of[pn] = nm
     pre_heap = dict(st.heap)
     ctx0 = Ctx(self, st, recv, bound, pre_heap=pre_heap)
     for name, f in contract.requires:
@@ -387,6 +411,13 @@ def apply_contract(self, st, contract: Contract, recv, args, kwargs):
                     result = TupleVal([mk_fresh(t, "res") for t in contract.result])
                 else:
                     result = mk_fresh(contract.result, "res")
+        for pn in mutable:
+            pv = mk_fresh(contract.params[pn], f"post.{pn}")
+            extra[f"post:{pn}"] = pv.term
+            if pn in local_of and local_of[pn] in s.env:
+                s.env[local_of[pn]] = pv
+            elif isinstance(bound.get(pn), Val) and bound[pn].origin is not None:
+                self.write_lv(s, bound[pn].origin, pv)
         cpost = Ctx(self, s, recv, bound, result=result, pre_heap=pre_heap, extra=extra)
         for name, f in case.ensures:
             s.assume(f(cpost))
@@ -687,6 +718,13 @@ def do_next(self, st, it, default):
     raise Unsupported(f"next({it!r})")
 
 
+def need(self, st, v, ty):
+    """coerce v to ty, unwrapping an Optional value under a no-None obligation when ty is not Optional"""
+    if isinstance(v, Val) and isinstance(v.ty, Opt) and not isinstance(ty, Opt):
+        v = self.unwrap_opt(st, v, f"value used as {ty}")
+    return coerce(v, ty)
+
+
 # ---------------------------------------------------------------------- methods on values
 def value_method(self, st, recv, name, args, kwargs, lv):
     a = args
@@ -716,13 +754,13 @@ def value_method(self, st, recv, name, args, kwargs, lv):
     if isinstance(ty, SetT):
         es = ty.elem.sort()
         if name == "add":
-            x = coerce(a[0], ty.elem).term
+            x = self.need(st, a[0], ty.elem).term
             new = z3.Store(recv.term, x, True)
             st.assume(ops.card(new, es) == ops.card(recv.term, es) + z3.If(z3.Select(recv.term, x), 0, 1))
             store(new)
             return [(OK, st, NONE)]
         if name in ("discard", "remove"):
-            x = coerce(a[0], ty.elem).term
+            x = self.need(st, a[0], ty.elem).term
             if name == "remove":
                 self.implicit(st, z3.Select(recv.term, x), "KeyError", "set.remove")
             new = z3.Store(recv.term, x, False)
@@ -878,6 +916,6 @@ def value_method(self, st, recv, name, args, kwargs, lv):
 
 
 for _name in ("e_Call", "call_value", "construct", "find_contract_for_method", "call_method", "call_function",
-              "call_classmethod", "bind_params", "inline_call", "contract_args", "frame_cells", "apply_contract",
-              "call_on_comprehension", "next_on_genexp", "builtin_call", "now", "do_isinstance", "do_next", "value_method"):
+              "call_classmethod", "bind_params", "inline_call", "contract_args", "frame_cells", "_param_order", "apply_contract",
+              "call_on_comprehension", "next_on_genexp", "builtin_call", "now", "do_isinstance", "do_next", "value_method", "need"):
     setattr(Engine, _name, globals()[_name])
